@@ -132,6 +132,23 @@ theorem turns_eq_snapshot (f : Nat) (P : Prog) (s : St) (fl : Flavour) (i arg : 
       exact ⟨s2, vis, rfl, this.1, this.2⟩
 
 open Sigc.Emit in
+/-- consequence (C03 "a slot connected during an emission is not invoked by that emission"): every cell
+    that gets a turn existed when the emission started — its id is below the allocator value `s.next` of
+    that moment, whereas every cell connected later gets an id `≥ s.next` (`connect_appends`) -/
+theorem turns_are_old_cells (f : Nat) (P : Prog) (s : St) (i arg : Nat) (im : Impl) (hs : Inv s)
+    (hi : aget s.impls i = some im) (res : St × Outcome × Nat) (vis : List Nat)
+    (h : emitLoopT f P (emitStart s i im) i (emitFirst s im) s.next arg 0 = some (res, vis)) :
+    ∀ k ∈ vis, k ∈ im.cells.map (·.id) ∧ k < s.next := by
+  have hsnap := emitLoopT_snapshot f P s i arg im hs hi res vis h
+  have hsub : ∀ k ∈ vis, k ∈ cids im := by
+    intro k hk
+    cases ho : res.2.1 with
+    | ok => rw [hsnap.1 ho] at hk; exact hk
+    | exc => exact (hsnap.2 ho).2.subset hk
+  intro k hk
+  exact ⟨hsub k hk, (hs.lt i im hi).2 k (hsub k hk)⟩
+
+open Sigc.Emit in
 /-- the same statement for the loop alone, started the way `emitImpl` starts it -/
 theorem loop_turns_eq_snapshot (f : Nat) (P : Prog) (s : St) (i arg : Nat) (im : Impl) (hs : Inv s)
     (hi : aget s.impls i = some im) (res : St × Outcome × Nat) (vis : List Nat)
